@@ -302,14 +302,22 @@ def receiver_jobs(tier):
 
 # ------------------------------------------------------------------ (c) deadlock
 def deadlock_run(cfg, chooser):
-    W, N, reads = cfg
+    W, N, reads = cfg[:3]
+    limits = cfg[3] if len(cfg) > 3 else None
     loop = P.fresh(0)
     P.install_wire_labels()
     out = {'read': b'', 'calls': 0, 'done': False}
     wake = []
 
     async def handler(process):
-        process.stdout.write(data_of(N))
+        if limits is not None:
+            # the writer chose its own write-buffer limits and writes in two rounds, draining after each
+            process.channel.set_write_buffer_limits(high=limits[0], low=limits[1])
+            process.stdout.write(data_of(N)[:N // 2])
+            await process.stdout.drain()
+            process.stdout.write(data_of(N)[N // 2:])
+        else:
+            process.stdout.write(data_of(N))
         await process.stdout.drain()
         process.stdout.write_eof()
         process.exit(0)
@@ -395,8 +403,8 @@ def deadlock_worker(job):
                 sample={'window': cfg[0], 'bytes': cfg[1], 'reads': cfg[2], 'schedule': ch.choices}
                 if len(ch.labels()) == 2 else None)
         for kind, detail in obs['viol']:
-            acc.violation('deadlock:%s:w%d:n%d:%s' % (kind, cfg[0], cfg[1], cfg[2]), detail,
-                          {'kind': 'deadlock', 'cfg': [cfg[0], cfg[1], [list(r) for r in cfg[2]]],
+            acc.violation('deadlock:%s:w%d:n%d:%s%s' % (kind, cfg[0], cfg[1], cfg[2], ':limits=%r' % (cfg[3],) if len(cfg) > 3 else ''), detail,
+                          {'kind': 'deadlock', 'cfg': [cfg[0], cfg[1], [list(r) for r in cfg[2]]] + ([list(cfg[3])] if len(cfg) > 3 else []),
                            'choices': ch.choices})
     core.explore_dfs(lambda ch: deadlock_run(cfg, ch), bound, check)
     return acc
@@ -413,6 +421,11 @@ def deadlock_jobs(tier):
                           (('wait', 0), ('read', W)), (('read', 1), ('wait', 0)),
                           (('wait', 0), ('readexactly', W + 1))):
                 jobs.append(((W, N, reads), bound))
+    for W in (4, 16):
+        for N in (W + 1, 3 * W + 1, 6 * W):
+            for limits in ((W, 0), (0, 0), (W, W), (2 * W, 1)):
+                for reads in ((('read', 1),), (('read', W),), (('read', -1),), (('wait', 0), ('read', W))):
+                    jobs.append(((W, N, reads, limits), min(bound, 2)))
     return jobs
 
 
@@ -437,7 +450,8 @@ def main(tier, seed):
             'refpeer ledger never negative, packets <= max packet, everything delivered once enough is '
             'granted; (b) receiver: every sequence up to depth d over {send n (n around window and '
             'packet size), extended data, pause, resume} from a hostile peer; (c) real<->real stream '
-            'API, reader call menus x write sizes around the window, every packet-delivery interleaving '
+            'API, reader call menus x write sizes around the window (and writers with their own write-buffer '
+            'limits incl. low-water 0, two write+drain rounds), every packet-delivery interleaving '
             'within the deviation bound, no deadlock')
     return core.finish(PROP, tier, seed, 'model_checking', acc, t0, rule,
                        {'sender_execs': n_a, 'receiver_execs': n_b, 'deadlock_execs': n_c,
@@ -454,7 +468,7 @@ def replay(rep):
     elif r['kind'] == 'receiver':
         v, _ = receiver_run(r['role'], r['W'], r['PKT'], [tuple(o) for o in r['ops']])
     else:
-        cfg = (r['cfg'][0], r['cfg'][1], tuple(tuple(x) for x in r['cfg'][2]))
+        cfg = (r['cfg'][0], r['cfg'][1], tuple(tuple(x) for x in r['cfg'][2])) + ((tuple(r['cfg'][3]),) if len(r['cfg']) > 3 else ())
         v = deadlock_run(cfg, core.Chooser(r['choices']))['viol']
     print(json.dumps({'replay': r, 'violations': v}, indent=1, default=repr))
     if v:
